@@ -459,6 +459,7 @@ func C15Oracle(x []byte) []string {
 
 // c15Fuzz runs Go's coverage-guided fuzzer on the fuzz target (thorough tier only).
 func c15Fuzz(c *vk.Ctx) {
+	c15CLI(c)
 	if c.Quick() {
 		return
 	}
